@@ -64,14 +64,22 @@ def convert_py_dtype_to_polars_dtype(dtype):
 
 
 def polars_object_coercible(
-    data_container: PolarsData, type_: PolarsDataType
+    data_container: PolarsData,
+    type_: PolarsDataType,
+    categories: Optional[Iterable[Any]] = None,
 ) -> pl.LazyFrame:
-    """Checks whether a polars object is coercible with respect to a type."""
+    """Checks whether a polars object is coercible with respect to a type
+    and, if categories are given, to one of these values."""
     key = data_container.key or "*"
+    coerced = pl.col(key).cast(type_, strict=False)
     # a value is not coercible if the non-strict cast turns it into a null:
     # values that are null to begin with are not failure cases
     coercible = data_container.lazyframe.select(
-        pl.col(key).cast(type_, strict=False).is_not_null()
+        (
+            coerced.is_not_null()
+            if categories is None
+            else coerced.is_in(categories).fill_null(False)
+        )
         | pl.col(key).is_null()
     )
     # reduce to a single boolean column
@@ -91,13 +99,16 @@ def polars_failure_cases_from_coercible(
 def polars_coerce_failure_cases(
     data_container: PolarsData,
     type_: Any,
+    categories: Optional[Iterable[Any]] = None,
 ) -> Tuple[pl.DataFrame, pl.DataFrame]:
     """
     Get the failure cases resulting from trying to coerce a polars object
     into particular data type.
     """
     try:
-        is_coercible = polars_object_coercible(data_container, type_)
+        is_coercible = polars_object_coercible(
+            data_container, type_, categories
+        )
     except (TypeError, pl.InvalidOperationError):
         is_coercible = data_container.lazyframe.with_columns(
             **{CHECK_OUTPUT_KEY: pl.lit(False)}
@@ -756,9 +767,9 @@ class Category(DataType, dtypes.Category):
         if isinstance(data_container, pl.LazyFrame):
             data_container = PolarsData(data_container)
 
-        lf = data_container.lazyframe.cast(self.type, strict=True)
-
         key = data_container.key or "*"
+        lf = data_container.lazyframe.cast({key: self.type}, strict=True)
+
         belongs_to_categories = self.__belongs_to_categories(lf, key=key)
 
         all_true = (
@@ -786,19 +797,16 @@ class Category(DataType, dtypes.Category):
         try:
             return self.coerce(data_container)
         except Exception as exc:  # pylint:disable=broad-except
-            is_coercible: pl.LazyFrame = polars_object_coercible(
-                data_container, self.type
-            ) & self.__belongs_to_categories(
-                data_container.lazyframe, key=data_container.key
+            is_coercible, failure_cases = polars_coerce_failure_cases(
+                data_container, self.type, self.categories or []
             )
-
-            failure_cases = polars_failure_cases_from_coercible(
-                data_container, is_coercible
-            )
+            if data_container.key:
+                failure_cases = failure_cases.select(data_container.key)
             raise errors.ParserError(
                 f"Could not coerce {type(data_container)} data_container "
                 f"into type {self.type}. Invalid categories found in data_container.",
                 failure_cases=failure_cases,
+                parser_output=is_coercible,
             ) from exc
 
     def __belongs_to_categories(
